@@ -191,6 +191,14 @@ fn render(m: &Model) -> Invocation {
                 inv = inv.env("GE_JITTER_US", jitter.to_string());
             }
         }
+        // The environment variables of the OTHER commands' account options (a shell that exported them for
+        // `address` or `sign`): the account of a vanity search is selected by the --vanity-* options alone.
+        match s % 5 {
+            1 => inv = inv.env("PASSWORD", "not-the-vanity-password"),
+            2 => inv = inv.env("ACCOUNT_INDEX", "7"),
+            3 => inv = inv.env("HD_PATH", "m/0'/1").env("MNEMONIC", "test test test test test test test test test test test junk"),
+            _ => {}
+        }
     }
     inv
 }
@@ -901,7 +909,7 @@ fn judge_long_prefix(c: &LongPrefixCase, cls: &mut Classifier) -> Verdict {
 }
 
 pub fn run(ctx: &mut Ctx) {
-    ctx.rule = "Subject: the executable, `hdwallet new --vanity-prefix 0x<digits> [-n L] [-j N] [--vanity-password P] [--vanity-account-index I | --vanity-hd-path PATH]`, run under an LD_PRELOAD getentropy shim that delivers a seeded, logged byte stream. Generator: (single-digit) all 16 lower-case digits and the 6 upper-case letters x -j {0,1,2,16}, exhaustively; (search) stratified configurations of 1-2 digit prefixes in lower/upper/mixed case x -j {0,1,2} x selector {none, password, index, path, password+index, password+path} x -n {12,15,18,21,24,omitted}, each repeated with different shim seeds; (wide) 2- and 3-digit prefixes at -j 16 / -j omitted, run one at a time, repeated with different seeds so that a different worker wins; two thirds of the seeded multi-thread runs add schedule perturbation (GE_JITTER_US: the shim delays every entropy request by a pseudo-random time scaled by a per-thread slowness factor, so which worker finishes first varies); thorough adds runs on real OS entropy (logged and without any shim) and the plain release build; (long-prefix) prefixes of 1..42 digits taken from (or one digit off) the reference address of the seeded stream's FIRST candidate, with GE_FAIL_FROM=1 so that the search ends after it: a true prefix of any length must print that candidate, a near miss or an over-long prefix must end in an error; (refusal) 0x followed by 1-3 characters of which at least one is not a hex digit (fixed list incl. full-width and Arabic-Indic digits, neighbours of the hex ranges, generated ASCII/non-ASCII, and every non-hex ASCII character 0x01..0x7f alone / after a digit / before a digit). Oracle (schedule-independent): exit 0 and exactly one stdout line that the reference BIP-39 decoder accepts with the requested word count; the reference chain entropy -> canonical phrase -> PBKDF2(phrase, 'mnemonic'+NFKD(password)) -> BIP-32 CKDpriv along m/44'/60'/0'/0/i or the given path -> secp256k1 k*G -> Keccak address must begin, in lower-case hex, with the lower-cased requested digits; with the shim the phrase's entropy must be one of the logged getentropy results. Non-hex prefix: error exit (255 or 2), empty stdout, no panic. For -j 0/1 the first matching block of the seeded stream is predicted and compared (recorded as a class, never reported: the property does not promise first-match). Non-trivial: prefix contains a letter digit, or has >= 2 digits, or a password/index/path is given, or >= 2 threads; distinct by the whole model (prefix, -n, -j, password, selector, entropy source/seed, build).".into();
+    ctx.rule = "Subject: the executable, `hdwallet new --vanity-prefix 0x<digits> [-n L] [-j N] [--vanity-password P] [--vanity-account-index I | --vanity-hd-path PATH]`, run under an LD_PRELOAD getentropy shim that delivers a seeded, logged byte stream. Generator: (single-digit) all 16 lower-case digits and the 6 upper-case letters x -j {0,1,2,16}, exhaustively; (search) stratified configurations of 1-2 digit prefixes in lower/upper/mixed case x -j {0,1,2} x selector {none, password, index, path, password+index, password+path} x -n {12,15,18,21,24,omitted}, each repeated with different shim seeds; (wide) 2- and 3-digit prefixes at -j 16 / -j omitted, run one at a time, repeated with different seeds so that a different worker wins; three fifths of the seeded runs carry an environment variable of the other commands' account options (PASSWORD, ACCOUNT_INDEX, HD_PATH+MNEMONIC), which must not change which account is searched; two thirds of the seeded multi-thread runs add schedule perturbation (GE_JITTER_US: the shim delays every entropy request by a pseudo-random time scaled by a per-thread slowness factor, so which worker finishes first varies); thorough adds runs on real OS entropy (logged and without any shim) and the plain release build; (long-prefix) prefixes of 1..42 digits taken from (or one digit off) the reference address of the seeded stream's FIRST candidate, with GE_FAIL_FROM=1 so that the search ends after it: a true prefix of any length must print that candidate, a near miss or an over-long prefix must end in an error; (refusal) 0x followed by 1-3 characters of which at least one is not a hex digit (fixed list incl. full-width and Arabic-Indic digits, neighbours of the hex ranges, generated ASCII/non-ASCII, and every non-hex ASCII character 0x01..0x7f alone / after a digit / before a digit). Oracle (schedule-independent): exit 0 and exactly one stdout line that the reference BIP-39 decoder accepts with the requested word count; the reference chain entropy -> canonical phrase -> PBKDF2(phrase, 'mnemonic'+NFKD(password)) -> BIP-32 CKDpriv along m/44'/60'/0'/0/i or the given path -> secp256k1 k*G -> Keccak address must begin, in lower-case hex, with the lower-cased requested digits; with the shim the phrase's entropy must be one of the logged getentropy results. Non-hex prefix: error exit (255 or 2), empty stdout, no panic. For -j 0/1 the first matching block of the seeded stream is predicted and compared (recorded as a class, never reported: the property does not promise first-match). Non-trivial: prefix contains a letter digit, or has >= 2 digits, or a password/index/path is given, or >= 2 threads; distinct by the whole model (prefix, -n, -j, password, selector, entropy source/seed, build).".into();
     ctx.assumptions = vec![
         "prefixes without 0x and the empty prefix 0x are unspecified: run, counted, only checked for 'no panic'".into(),
         "a successful search is required for every hexadecimal prefix with a valid length and selector (an error exit is reported), since nothing in such an input can be refused".into(),
